@@ -214,7 +214,8 @@ def call_level_selectors():
     """r(ctx, s1() as r1 ~ pred, s2(!v)): the predicate is attached to the call (its return value)."""
     out = []
     for base in E.value_selectors():
-        if len(base.children) == 2:
+        # (also the rooted form r(ctx) > s() as r1 ~ pred, where the constrained return value is the focus)
+        if len(base.children) in (1, 2):
             for c in CONDS:
                 out.append((base, c))
     return out
@@ -282,6 +283,14 @@ def check_call_level(base, cond, trees, part):
     plain_text = R.render(base)
     vchild = [c for c in base.children if c.caps and c.caps[0].var == "#value"][0]
     piece = f"{vchild.label}() as r1"
+    if len(base.children) == 1:
+        # rooted form: `r(ctx) > s > #value as r1` is also spelled `r(ctx) > s() as r1`
+        plain_text = R.render(base, mixed=True)
+        tail = f" > {vchild.label} > #value as r1"
+        if not plain_text.endswith(tail):
+            part["harness_errors"].append(f"call-level spelling: {tail!r} is not the end of {plain_text!r}")
+            return
+        plain_text = plain_text[: -len(tail)] + f" > {piece}"
     if plain_text.count(piece) != 1:
         part["harness_errors"].append(f"call-level spelling: {piece!r} not found once in {plain_text!r}")
         return
